@@ -152,15 +152,19 @@ def r_legacy_presence(ck: Checker) -> None:
     from ..dtree import decision_tree
     leaves = decision_tree(strip_docstring(f.node.body))
     bad = []
+    k_l, k_t, k_n = "isinstance(value, list)", "isinstance(value, tuple)", k_none("value")
     for lf in leaves:
         a = lf.assign
-        if a.get(k_none("value")) is True:
+        if set(a) - {k_l, k_t, k_n}:
+            raise Unsupported(f"legacy _ensure_iterable decides on {sorted(a)}", f.node)
+        is_seq = True if (a.get(k_l) or a.get(k_t)) else (False if (a.get(k_l) is False and a.get(k_t) is False) else None)
+        if a.get(k_n) is True:
             if lf.val() != "[]":
                 bad.append(f"None yields {lf.val()}")
-        elif a.get("isinstance(value, (list, tuple))") is True:
-            if lf.val() != "value":
+        elif is_seq is True:
+            if lf.val() not in ("value",):
                 bad.append(f"a sequence yields {lf.val()}")
-        elif a.get(k_none("value")) is False and a.get("isinstance(value, (list, tuple))") is False:
+        elif a.get(k_n) is False and is_seq is False:
             if lf.val() != "[value]":
                 bad.append(f"a single child yields {lf.val()}")
         else:
